@@ -97,9 +97,9 @@ def get_branch_results_gas(net, branch_pit, node_pit, from_nodes, to_nodes, v_mp
 
     fluid = get_fluid(net)
     switched_t = branch_pit[:, FROM_NODE_T_SWITCHED].astype(np.bool_)
-    t_from = node_pit[from_nodes, TINIT_NODE]
-    t_from[switched_t] = node_pit[to_nodes[switched_t], TINIT_NODE]
-    t_to = branch_pit[:, TOUTINIT]
+    # with reverse flow the fluid enters at the to node and leaves (with TOUTINIT) at the from node
+    t_from = np.where(switched_t, branch_pit[:, TOUTINIT], node_pit[from_nodes, TINIT_NODE])
+    t_to = np.where(switched_t, node_pit[to_nodes, TINIT_NODE], branch_pit[:, TOUTINIT])
     tm = (t_from + t_to) / 2
     numerator_from = NORMAL_PRESSURE * t_from / NORMAL_TEMPERATURE
     numerator_to = NORMAL_PRESSURE * t_to / NORMAL_TEMPERATURE
@@ -126,9 +126,9 @@ def get_branch_results_gas_numba(net, branch_pit, node_pit, from_nodes, to_nodes
     args_from, args_to, args_mean = [p_abs_from], [p_abs_to], [p_abs_mean]
     if hasattr(fluid.all_properties["compressibility"], "allow_2d"):
         switched_t = branch_pit[:, FROM_NODE_T_SWITCHED].astype(np.bool_)
-        t_from = node_pit[from_nodes, TINIT_NODE]
-        t_from[switched_t] = node_pit[to_nodes[switched_t], TINIT_NODE]
-        t_to = branch_pit[:, TOUTINIT]
+        # with reverse flow the fluid enters at the to node and leaves (with TOUTINIT) at the from node
+        t_from = np.where(switched_t, branch_pit[:, TOUTINIT], node_pit[from_nodes, TINIT_NODE])
+        t_to = np.where(switched_t, node_pit[to_nodes, TINIT_NODE], branch_pit[:, TOUTINIT])
         args_from.append(t_from)
         args_to.append(t_to)
         args_mean.append((t_from + t_to) / 2)
@@ -166,9 +166,15 @@ def get_gas_vel_numba(node_pit, branch_pit, comp_from, comp_to, comp_mean, p_abs
     v_gas_from, v_gas_to, v_gas_mean, normfactor_from, normfactor_to, normfactor_mean = \
         [np.empty_like(v_mps) for _ in range(6)]
     from_nodes = branch_pit[:, FROM_NODE].astype(np.int32)
+    to_nodes = branch_pit[:, TO_NODE].astype(np.int32)
     for i in range(len(v_mps)):
-        t_from = node_pit[from_nodes[i], TINIT_NODE]
-        t_to = branch_pit[i, TOUTINIT]
+        # with reverse flow the fluid enters at the to node and leaves (with TOUTINIT) at the from node
+        if branch_pit[i, FROM_NODE_T_SWITCHED] != 0:
+            t_from = branch_pit[i, TOUTINIT]
+            t_to = node_pit[to_nodes[i], TINIT_NODE]
+        else:
+            t_from = node_pit[from_nodes[i], TINIT_NODE]
+            t_to = branch_pit[i, TOUTINIT]
         tm = (t_from + t_to) / 2
         numerator_from = np.divide(NORMAL_PRESSURE * t_from, NORMAL_TEMPERATURE)
         numerator_to = np.divide(NORMAL_PRESSURE * t_to, NORMAL_TEMPERATURE)
